@@ -54,6 +54,7 @@ var Palette = []ResInfo{
 	{"rbac.authorization.k8s.io", "v1", "clusterroles", "ClusterRole", false, true},
 	{"apiextensions.k8s.io", "v1", "customresourcedefinitions", "CustomResourceDefinition", false, true},
 	{"verif.example", "v1", "widgets", "Widget", true, false},
+	{"verif.example", "v1", "gadgets", "Gadget", true, false},
 }
 
 func resByKind(kind string) (ResInfo, bool) {
@@ -106,6 +107,8 @@ type ReqRecord struct {
 	Fault   string // fault kind that hit this request, if any
 	ID      *ObjID // object addressed, when the path names one (or the body does, for POST)
 	Note    string
+	// TargetState describes the addressed object just before a mutating request was applied: "", "absent", "owned", "foreign"
+	TargetState string
 }
 
 // Mutating reports whether the request is one of the state changing verbs.
